@@ -289,3 +289,16 @@ package evm
 // ---- effect clauses (C01)
 //@ effect (*StateDBWrapper).Finish maprange#0: every iteration writes only the account of its own address (distinct addresses, distinct account objects) and the post-condition is stated over the whole tracked set (visited-set invariant, C17)
 //@ effect (*StateDBWrapper).revertAccessedObjAddr maprange#0: deletes exactly the entries tagged at or above the snapshot; the result is a function of the map, not of the order (C17)
+
+// ---- block begin (C17, C01): every block starts from the state root committed by the previous block, with a
+// full block gas pool and an interpreter whose block context is this block's (proposer, height, time)
+//@ func (ctrler *EVMCtrler) BeginBlock(ctx)
+//@   requires ctrler != nil && ctx != nil
+//@   modifies everything
+//@   assert@call(NewStateDBWrapper,0): $arg1 == ctrler.lastRootHash && $arg2 == ctx.AcctHandler              [C17]
+//@   assert@call(AddGas,0): $arg1 == gasLimit                                                                 [C17,C16]
+//@   assert@store(EVMCtrler.blockGasPool,0): $target == ctrler                                                [C17]
+//@   assert@call(evmBlockContext,0): $arg1 == bheight(ctx) && $arg0 == beneficiary                             [C01,C17]
+//@   assert@call(Array20,0): content($arg0) == content(ctx.blockInfo.Header.ProposerAddress)                   [C01,C17]
+//@   assert@call(NewEVM,0): $arg2 == ctrler.stateDBWrapper                                                     [C17]
+//@   assert@store(EVMCtrler.vmevm,0): $target == ctrler                                                        [C01,C17]
